@@ -150,6 +150,11 @@ class Prover:
                 ilo, ihi = self.interval_lin(self.lin(atom[2]), facts)
                 if ilo >= 0 and ihi < INF:
                     lo, hi = max(lo, 0), min(hi, int(ihi) >> atom[3][1])
+        if t == "call" and atom[1].rsplit("::", 1)[-1] == "min" and atom[1].startswith("core::cmp::") and len(atom[2]) == 2:
+            for side in atom[2]:
+                side = side[1] if side[0] == "byref" else side
+                if side[0] == "const":
+                    hi = min(hi, side[1])
         if t == "call" and atom[1].endswith("::bitand") and len(atom[2]) == 2:
             for side in atom[2]:
                 if side[0] == "const" and side[1] >= 0:
